@@ -265,7 +265,6 @@ func C03(c *Ctx) {
 	// class-specific single-character escapes (CharClassEscape minus the common ones) need their own case in parse():
 	// strconv.UnquoteChar honours its quote argument only for ' and "
 	if cce := ruleExprOfLiteral(root, "CharClassEscape"); cce != nil {
-		pfd := load.FuncDecl(g.Pkg("ast"), "CharClassMatcher", "parse")
 		var own []string
 		for _, l := range nodesOfType(root, cce, "litMatcher") {
 			if v, ok := litField(root, l, "val"); ok && len(v) == 1 && v != "p" {
@@ -273,27 +272,8 @@ func C03(c *Ctx) {
 			}
 		}
 		for _, ch := range own {
-			okCase := false
-			if pfd != nil {
-				ast.Inspect(pfd.Body, func(n ast.Node) bool {
-					cc, ok := n.(*ast.CaseClause)
-					if !ok {
-						return true
-					}
-					for _, e := range cc.List {
-						if nospace(e) == "'"+ch+"'" || nospace(e) == "'\\"+ch+"'" {
-							for _, st := range cc.Body {
-								if as, ok := st.(*ast.AssignStmt); ok && nospace(as.Rhs[0]) == "append(chars,rn)" {
-									okCase = true
-								}
-							}
-						}
-					}
-					return true
-				})
-			}
-			r.Check(okCase, "C03-c", "G.ast.CharClassMatcher.parse:class-escape-\\"+ch, "", "ast/ast.go", "`\\"+ch+"` is decoded to the character itself by a dedicated case",
-				"the grammar accepts the class escape \\"+ch+" but parse() has no case appending that character: it falls to strconv.UnquoteChar, which rejects it and yields U+0000")
+			okCase, why := classEscapeOwnCase(c, ch)
+			r.Check(okCase, "C03-c", "G.ast.CharClassMatcher.parse:class-escape-\\"+ch, "", "ast/ast.go", "`\\"+ch+"` is decoded to the character itself by a dedicated case", why)
 		}
 		if len(own) == 0 {
 			r.Fatal("CharClassEscape: no class-specific escape literal found")
@@ -325,26 +305,11 @@ func C03(c *Ctx) {
 		return n
 	}
 	consume := map[string]int{}
-	pf := load.FuncDecl(g.Pkg("ast"), "CharClassMatcher", "parse")
-	if pf == nil {
-		r.Fatal("ast.CharClassMatcher.parse not found")
-		return
+	for _, l := range []string{"x", "u", "U", "0", "1", "2", "3", "4", "5", "6", "7"} {
+		if n, ok := classEscapeDigits(c, l); ok {
+			consume[l] = n
+		}
 	}
-	ast.Inspect(pf.Body, func(n ast.Node) bool {
-		cc, ok := n.(*ast.CaseClause)
-		if !ok || len(cc.Body) != 1 {
-			return true
-		}
-		as, ok := cc.Body[0].(*ast.AssignStmt)
-		if !ok || nospace(as.Lhs[0]) != "consumeN" {
-			return true
-		}
-		v := nospace(as.Rhs[0])
-		for _, e := range cc.List {
-			consume[strings.Trim(nospace(e), "'")] = int(v[0] - '0')
-		}
-		return true
-	})
 	type dc struct {
 		letter, rule, digit string
 		offset              int
@@ -356,7 +321,7 @@ func C03(c *Ctx) {
 			fmt.Sprintf("parse consumes %d further digits after \\%s but rule %s matches %d: class members would be decoded from the wrong characters", got, d.letter, d.rule, want))
 	}
 	for _, o := range []string{"1", "2", "3", "4", "5", "6", "7"} {
-		if consume[o] != consume["0"] {
+		if v, ok := consume[o]; !ok || v != consume["0"] {
 			r.Bad("C03-c", "G.ast.CharClassMatcher.parse:digits-of-\\0", "", "ast/ast.go", "octal lead digits are not treated alike")
 		}
 	}
@@ -772,21 +737,7 @@ func flagMapping(c *Ctx, g *load.G, rule string) {
 		r.Check(okB, rule, "A.bootstrap/parser.go:LitMatcher:ignore-case-suffix", "", "bootstrap/parser.go", "IgnoreCase = (the literal token ends in i)", "IgnoreCase is assigned "+detail)
 	}
 	// class decoder
-	pf := load.FuncDecl(g.Pkg("ast"), "CharClassMatcher", "parse")
-	if pf != nil {
-		m := map[string]string{}
-		ast.Inspect(pf.Body, func(n ast.Node) bool {
-			if as, ok := n.(*ast.AssignStmt); ok {
-				l := nospace(as.Lhs[0])
-				if l == "c.IgnoreCase" || l == "c.Inverted" {
-					m[l] = nospace(as.Rhs[0]) + " under [" + strings.Join(guardsOf(pf.Body, as.Pos()), ";") + "]"
-				}
-			}
-			return true
-		})
-		ok := m["c.IgnoreCase"] == `strings.HasSuffix(raw,"i") under []` && m["c.Inverted"] == "raw[0]=='^' under []"
-		r.Check(ok, rule, "G.ast.CharClassMatcher.parse:i-suffix-and-^-prefix", "", g.Where(pf.Pos()), "IgnoreCase = has suffix i; Inverted = starts with ^ (after removing the brackets)", fmt.Sprintf("flags are assigned %v", m))
-	}
+	classFlagsN(c, rule)
 }
 
 // classParserKeepsEveryRune: CharClassMatcher.parse turns the text of a class into Chars, Ranges and UnicodeClasses
@@ -794,85 +745,4 @@ func flagMapping(c *Ctx, g *load.G, rule string) {
 // Unicode class name), and every iteration of the range-extraction loop stores its rune into Chars or Ranges (or
 // turns the previous character into a range start). No rune value - U+FFFD in particular, which is a legitimate
 // member and the way invalid bytes are matched - may be skipped.
-func classParserKeepsEveryRune(c *Ctx, rule string) {
-	r := c.R
-	g := c.G()
-	if g == nil {
-		return
-	}
-	fd := load.FuncDecl(g.Pkg("ast"), "CharClassMatcher", "parse")
-	if fd == nil || fd.Body == nil {
-		r.Fatal("anchor ast.CharClassMatcher.parse not found")
-		return
-	}
-	recv := recvName(fd)
-	var readLoop *ast.ForStmt
-	var extractLoop *ast.RangeStmt
-	var labeled *ast.LabeledStmt
-	for _, st := range fd.Body.List {
-		if ls, ok := st.(*ast.LabeledStmt); ok {
-			labeled = ls
-			st = ls.Stmt
-		}
-		switch x := st.(type) {
-		case *ast.ForStmt:
-			if x.Cond == nil && readLoop == nil {
-				readLoop = x
-			}
-		case *ast.RangeStmt:
-			extractLoop = x
-		}
-	}
-	_ = labeled
-	if readLoop == nil || extractLoop == nil {
-		r.Unk(rule, "G.ast.CharClassMatcher.parse:loops", "", g.Where(fd.Pos()), "reading loop or extraction loop not found")
-		return
-	}
-	nStores := func(p bpath, targets ...string) int {
-		n := 0
-		for _, e := range p {
-			if e.Kind != "assign" {
-				continue
-			}
-			for _, t := range targets {
-				if strings.HasPrefix(e.Text, t+"=append("+t+",") {
-					n++
-				}
-			}
-		}
-		return n
-	}
-	stores := func(p bpath, targets ...string) bool { return nStores(p, targets...) > 0 }
-	var bad []string
-	paths := enumPaths(readLoop.Body)
-	n := 0
-	for _, p := range paths {
-		if p.has("+", "err!=nil") {
-			continue
-		}
-		n++
-		if !stores(p, "chars", recv+".UnicodeClasses") {
-			bad = append(bad, "an iteration that read a rune stores nothing on the path ["+strings.Join(p.guards(), " ")+"]: that member is silently dropped from the class")
-		} else if k := nStores(p, "chars", recv+".UnicodeClasses"); k != 1 {
-			var cs []string
-			for _, e := range p {
-				if e.Kind == "case" {
-					cs = append(cs, e.Text)
-				}
-			}
-			bad = append(bad, fmt.Sprintf("one member of the class text stores %d members on the path through cases [%s]: the class gains a member that was not written", k, strings.Join(cs, " > ")))
-		}
-	}
-	if n == 0 {
-		bad = append(bad, "no path of the reading loop analysed")
-	}
-	r.Check(len(bad) == 0, rule, "G.ast.CharClassMatcher.parse:reading-loop-keeps-every-rune", "", g.Where(readLoop.Pos()), fmt.Sprintf("%d paths, each appends to chars or UnicodeClasses", n), strings.Join(uniq(bad), "; "))
-	bad = nil
-	paths = enumPaths(extractLoop.Body)
-	for _, p := range paths {
-		if !stores(p, recv+".Chars", recv+".Ranges") {
-			bad = append(bad, "the extraction loop stores nothing on the path ["+strings.Join(p.guards(), " ")+"]")
-		}
-	}
-	r.Check(len(bad) == 0 && len(paths) > 0, rule, "G.ast.CharClassMatcher.parse:extraction-loop-keeps-every-rune", "", g.Where(extractLoop.Pos()), fmt.Sprintf("%d paths, each appends to Chars or Ranges", len(paths)), strings.Join(uniq(bad), "; "))
-}
+func classParserKeepsEveryRune(c *Ctx, rule string) { classKeepsEveryRuneN(c, rule) }
